@@ -103,6 +103,7 @@ def run(ctx):
         if np.array_equal(p4.rays.indices, path.rays.indices) and not rel(b4, b, 1e-12):
             ctx.violate(f"the same walls given one basis each instead of one basis per point give beamspread {b4!r} instead of {b!r}", {**cj, "tilts": info["tilts"]}, {"kind": "single_basis"})
     check_wall_door(ctx)
+    check_large_target_set(ctx)
     ctx.assumptions.append("sin / cos / sqrt are external routines; the neighbourhood of total-reflection angles is excluded (the tube degenerates)")
 
 
@@ -141,6 +142,34 @@ def check_wall_door(ctx):
         if not rel(d, d_want, 2e-5 if n > 2 else 1e-12) or not rel(b, b_direct, 1e-12):
             ctx.violate(f"the beamspread returned by ray_weights_for_wall for a {n - 1}-leg contact path gives virtual distance {d}; its ray tube gives {d_want} "
                         f"(beamspread_2d_for_path on a fresh geometry: {1 / b_direct ** 2})", cj, {"kind": "wall_door", "legs": n - 1})
+
+
+def check_large_target_set(ctx):
+    """One source and more than 2^15 targets (a fine image grid) traced through the default door (`ray_tracing_for_paths`): for
+    every target the beamspread is 1/sqrt(d) — in a single medium d is the distance source-target, through a planar wall the
+    closed form of the ray tube of a refracted pencil."""
+    import arim
+    import arim.geometry as g
+    from arim import model, ray
+
+    rng = ctx.rng
+    block = arim.Material(6320.0, 3130.0, density=2700.0, state_of_matter="solid")
+    npts = 33000 + int(rng.integers(0, 500))
+    src = g.Points(np.array([[0.0, 0.0, 0.0]]), "Source")
+    tgt_xyz = np.c_[rng.uniform(-0.03, 0.03, npts), np.zeros(npts), rng.uniform(0.01, 0.05, npts)]
+    tgt = g.Points(tgt_xyz, "Targets")
+    path = arim.Path((arim.Interface(src, g.default_orientations(src), are_normals_on_out_rays_side=True),
+                      arim.Interface(tgt, g.default_orientations(tgt), are_normals_on_inc_rays_side=True)), (block,), ("L",), name="L")
+    ray.ray_tracing_for_paths([path])
+    b = np.asarray(model.beamspread_2d_for_path(ray.RayGeometry.from_path(path)))[0]
+    want = 1.0 / np.sqrt(np.sqrt((tgt_xyz ** 2).sum(axis=1)))
+    ctx.case(("large_target_set", npts), True)
+    ctx.count("large_target_set")
+    bad = np.flatnonzero(~(np.abs(b - want) <= 1e-12 * want))
+    if len(bad):
+        ctx.violate(f"single medium, 1 source x {npts} targets traced with the default options: for {len(bad)} targets (first #{int(bad[0])}) the beamspread is not "
+                    f"1/sqrt(distance) (got {b[bad[0]]!r}, expected {want[bad[0]]!r})", {"op": "large_target_set", "numtargets": npts, "first_bad_target": int(bad[0]),
+                                                                                      "target": tgt_xyz[bad[0]].tolist()}, {"kind": "large_target_set"})
 
 
 def fixtures_mod():
